@@ -230,6 +230,31 @@ class Session:
             return orig_exit(*a, **kw)
         s.app.exit = exit_
         self.flush_len = None
+        self.escape_calls = []
+        proc = s.app.key_processor
+        orig_call = proc._call_handler
+
+        def watch_escape(handler, key_sequence):
+            from prompt_toolkit.keys import Keys
+            is_esc = bool(key_sequence) and key_sequence[-1].key == Keys.Escape
+            pre = None
+            if is_esc:
+                try:
+                    pre = self.observe()
+                    pre["kbuf"] = len(key_sequence) - 1      # keys that were pending in front of Escape
+                except Exception:  # noqa
+                    pre = None
+            try:
+                return orig_call(handler, key_sequence)
+            finally:
+                if pre is not None:
+                    try:
+                        post = self.observe()
+                        post["kbuf"] = 0
+                        self.escape_calls.append((pre, post, getattr(handler.handler, "__qualname__", "?")))
+                    except Exception:  # noqa
+                        pass
+        proc._call_handler = watch_escape
         return self
 
     # -- instrumentation of KeyProcessor._call_handler --------------------
@@ -351,8 +376,10 @@ class Session:
             for c in app.layout.find_all_controls():
                 if isinstance(c, BufferControl) and all(c.buffer is not x for x in self._all_buffers):
                     self._all_buffers.append(c.buffer)
+        # the editor's cursor: the focused buffer and the prompt's main buffer (the search / system line
+        # buffers are not "the editor's cursor" of the property text when they are not focused)
         for ob in self._all_buffers:
-            if ob is not b:
+            if ob is not b and ob is d:
                 others.append((ob.name, ob.text, ob.cursor_position, ob.selection_state is not None))
         return {
             "others": others,
@@ -577,6 +604,8 @@ def _run_case(cfg, keys, yield_every=0, per_key=None, instrument=None):
                     trace.append((tok, exc, before, after))
                     break
                 after["handler"] = getattr(s, "last_handler", None)
+                after["escape_calls"] = list(s.escape_calls)
+                s.escape_calls = []
                 trace.append((tok, exc, before, after))
                 if per_key:
                     per_key(s, tok, exc, before, after)
